@@ -685,6 +685,12 @@ class ComplexModelMeta(with_metaclass(Prepareable, type(ModelBase))):
             if self.Attributes._subclasses is eattr._subclasses:
                 self.Attributes._subclasses = None
 
+            if self.__orig__ is None and \
+                          self.Attributes._variants is eattr._variants:
+                # a subclass is not a customized variant of its parent: it
+                # must not share (and add fields to) the parent's variants.
+                self.Attributes._variants = None
+
         # sanitize fields
         for k, v in type_info.items():
             # replace bare SelfRerefence
